@@ -334,6 +334,16 @@ fn get_node_tag<'i>(
     }
 }
 
+/// A literal whose escapes do not denote a Unicode scalar value (e.g. `\u{D800}`).
+fn bad_literal<'i>(pair: &Pair<'i, Rule>, what: &str) -> Vec<Error<Rule>> {
+    vec![Error::new_from_span(
+        ErrorVariant::CustomError {
+            message: format!("incorrect {what} literal"),
+        },
+        pair.as_span(),
+    )]
+}
+
 fn consume_expr<'i>(
     pairs: Peekable<Pairs<'i, Rule>>,
     pratt: &PrattParser<Rule>,
@@ -397,8 +407,8 @@ fn consume_expr<'i>(
                         let mut pairs = pair.into_inner();
                         pairs.next().unwrap(); // opening_paren
                         let contents_pair = pairs.next().unwrap();
-                        let string =
-                            unescape(contents_pair.as_str()).expect("incorrect string literal");
+                        let string = unescape(contents_pair.as_str())
+                            .ok_or_else(|| bad_literal(&contents_pair, "string"))?;
                         ParserNode {
                             expr: ParserExpr::PushLiteral(string[1..string.len() - 1].to_owned()),
                             span: contents_pair.clone().as_span(),
@@ -421,7 +431,14 @@ fn consume_expr<'i>(
                             Rule::range_operator => 0,
                             Rule::integer => {
                                 pairs.next().unwrap(); // ..
-                                pair_start.as_str().parse().unwrap()
+                                pair_start.as_str().parse().map_err(|_| {
+                                    vec![Error::new_from_span(
+                                        ErrorVariant::CustomError {
+                                            message: "number cannot overflow i32".to_owned(),
+                                        },
+                                        pair_start.as_span(),
+                                    )]
+                                })?
                             }
                             _ => unreachable!("peek start"),
                         };
@@ -430,7 +447,14 @@ fn consume_expr<'i>(
                             Rule::closing_brack => None,
                             Rule::integer => {
                                 pairs.next().unwrap(); // }
-                                Some(pair_end.as_str().parse().unwrap())
+                                Some(pair_end.as_str().parse().map_err(|_| {
+                                    vec![Error::new_from_span(
+                                        ErrorVariant::CustomError {
+                                            message: "number cannot overflow i32".to_owned(),
+                                        },
+                                        pair_end.as_span(),
+                                    )]
+                                })?)
                             }
                             _ => unreachable!("peek end"),
                         };
@@ -444,14 +468,16 @@ fn consume_expr<'i>(
                         span: pair.clone().as_span(),
                     },
                     Rule::string => {
-                        let string = unescape(pair.as_str()).expect("incorrect string literal");
+                        let string =
+                            unescape(pair.as_str()).ok_or_else(|| bad_literal(&pair, "string"))?;
                         ParserNode {
                             expr: ParserExpr::Str(string[1..string.len() - 1].to_owned()),
                             span: pair.clone().as_span(),
                         }
                     }
                     Rule::insensitive_string => {
-                        let string = unescape(pair.as_str()).expect("incorrect string literal");
+                        let string =
+                            unescape(pair.as_str()).ok_or_else(|| bad_literal(&pair, "string"))?;
                         ParserNode {
                             expr: ParserExpr::Insens(string[2..string.len() - 1].to_owned()),
                             span: pair.clone().as_span(),
@@ -460,11 +486,13 @@ fn consume_expr<'i>(
                     Rule::range => {
                         let mut pairs = pair.into_inner();
                         let pair = pairs.next().unwrap();
-                        let start = unescape(pair.as_str()).expect("incorrect char literal");
+                        let start =
+                            unescape(pair.as_str()).ok_or_else(|| bad_literal(&pair, "char"))?;
                         let start_pos = pair.clone().as_span().start_pos();
                         pairs.next();
                         let pair = pairs.next().unwrap();
-                        let end = unescape(pair.as_str()).expect("incorrect char literal");
+                        let end =
+                            unescape(pair.as_str()).ok_or_else(|| bad_literal(&pair, "char"))?;
                         let end_pos = pair.clone().as_span().end_pos();
 
                         ParserNode {
